@@ -983,6 +983,7 @@ pub fn check(cfg: &Cfg) -> Result<i32, Harness> {
             let mut rng = Rng::for_run(cfg.seed, ID, i);
             let case = gen_case(&mut rng);
             let (v, h, pred) = eval(&case, wk)?;
+            record_digest(i, h.digest());
             let mut tally = Tally::default();
             tally.add(format!("runs:{}", case.stratum));
             for f in &h.fired {
